@@ -36,6 +36,36 @@ def base_outcome(tr, extra_sig=()):
     faulty = {c["t"] for c in tr.calls if c.get("fault")}
     out.fault_free_periods = max(0, out.periods - len(faulty))
     out.tr = None
+    # reach of the world variants (swarm flags that actually took effect in this run)
+    sc = tr.sc
+    sim_, net_, par_ = sc.get("sim", {}), sc.get("network", {}), sc.get("party", {})
+    flags = {
+        "refill_applied": bool(getattr(tr, "refills", None)),
+        "event_subclass": any(s_.get("ev_sub") for s_ in sc.get("sessions", [])) or any(e_.get("sub") for e_ in sc.get("extra_events", [])),
+        "evse_subclass": any(s_["evse"].get("sub") for s_ in net_.get("stations", [])),
+        "battery_subclass": any(s_["battery"].get("sub") for s_ in sc.get("sessions", [])),
+        "interface_subclass": bool(sim_.get("iface_sub")),
+        "verbose": bool(sim_.get("verbose")),
+        "fractional_or_odd_period": sim_.get("period") not in (1, 5, 15, 60),
+        "aware_start": bool(sim_.get("start_tz")),
+        "start_with_seconds": len(sim_.get("start", [])) > 5,
+        "zero_or_subthreshold_request": any(s_["energy"] <= 1e-3 for s_ in sc.get("sessions", [])),
+        "bidirectional_evse": any(s_["evse"].get("min", 0) < 0 for s_ in net_.get("stations", []) if s_["evse"]["type"] == "EVSE"),
+        "odd_station_ids": any(s_["id"] in ("1", "01", "A/1", "a b") for s_ in net_.get("stations", [])),
+        "odd_constraint_names": any(not c_["name"].startswith("c") or not c_["name"][1:].isdigit() for c_ in net_.get("constraints", [])),
+        "all_zero_constraint_row": any(all(v_ == 0 for v_ in c_["coeffs"].values()) for c_ in net_.get("constraints", [])),
+        "numeric_session_ids": any(s_["session_id"] in ("1001", "0007", "7", "007") for s_ in sc.get("sessions", [])),
+        "phases_not_three_phase": any(s_["phase"] not in (0, 30, -90, 150) for s_ in net_.get("stations", [])) or
+        ({s_["phase"] for s_ in net_.get("stations", [])} >= {0, 180}),
+        "dict_subclass_schedule": par_.get("mapping_type", "dict") != "dict" and par_.get("kind") == "scripted",
+        "sorted_recompute_not_1": par_.get("kind") in ("greedy", "rr") and par_.get("max_recompute") != 1,
+        "user_sort_function": str(par_.get("sort", "")).startswith("user_"),
+        "idle_prefix_over_100": bool(sc.get("sessions")) and min(s_["arrival"] for s_ in sc["sessions"]) >= 100,
+        "station_with_over_10_sessions": any(n_ > 10 for n_ in __import__("collections").Counter(s_["station"] for s_ in sc.get("sessions", [])).values()),
+    }
+    for k_, v_ in flags.items():
+        if v_:
+            out.probes["world:" + k_] = 1
     return out
 
 
